@@ -2749,6 +2749,12 @@ JANET_CORE_FN(os_open,
         open_flags |= O_WRONLY;
     } else {
         open_flags |= O_RDWR;
+        /* also reached when neither :r nor :w was given */
+        janet_sandbox_assert(JANET_SANDBOX_FS_READ);
+        janet_sandbox_assert(JANET_SANDBOX_FS_WRITE);
+    }
+    if (open_flags & O_APPEND) {
+        janet_sandbox_assert(JANET_SANDBOX_FS_WRITE);
     }
 
     do {
